@@ -415,4 +415,84 @@ example : Gen.TimeShift.motionsShift (1/2) (1/8) = 1/2 ∧ Gen.TimeShift.motions
     Gen.TimeShift.motionsAccEntryScalar false 2 3 5 7 = 31 ∧ Gen.TimeShift.motionsSqueezeCond [1, 2] = false ∧
     Gen.TimeShift.motionsSqueezeRow = 0 := by decide +kernel
 
+/-! ## parameter identities
+
+The parameter lists of the generated definitions are derived from the symbols their text mentions; the tables `…Signatures` say
+which quantity each parameter stands for.  Pinning them here makes an edit that swaps *which* quantity an expression reads (same type,
+same arity) fail the build even where the bridge above passes the arguments positionally. -/
+
+example : Gen.TimeShift.put2dSignatures =
+  [("put2dDefaultClip", []),
+   ("put2dWidth", ["values", "np.max of shifts_i", "np.min of shifts_i"]),
+   ("put2dLo", ["shifts_i", "np.min of shifts_i"]),
+   ("put2dHi", ["values", "shifts_i", "np.min of shifts_i"]),
+   ("put2dClipEndCond", ["clip", "np.max of shifts_i"]),
+   ("put2dClipEndStop", ["np.max of shifts_i"]),
+   ("put2dClipStartCond", ["clip"]),
+   ("put2dClipStartLo", ["np.min of shifts_i"])] := rfl
+
+example : Gen.TimeShift.joinSignatures =
+  [("joinDefaultJtype", []),
+   ("joinPadBefore", []),
+   ("joinPadAfter", ["np.max of shifts_i"]),
+   ("joinPadValue", []),
+   ("joinEntry", ["jtype", "entry of np.pad of values_k", "a1_ik"])] := rfl
+
+example : Gen.TimeShift.joinSigSignatures =
+  [("joinSigShift", ["dt", "time_shifts_i"])] := rfl
+
+example : Gen.TimeShift.timeIndicesSignatures =
+  [("timeIndicesMerge1", ["dt", "end_"]),
+   ("timeIndicesMerge2", ["end_", "index", "timeIndicesMerge1"]),
+   ("timeIndicesMerge3", ["dt", "start", "index"]),
+   ("timeIndicesRaises", ["npts", "timeIndicesMerge2"]),
+   ("timeIndicesRetStart", ["timeIndicesMerge3"]),
+   ("timeIndicesRetEnd", ["timeIndicesMerge2"])] := rfl
+
+example : Gen.TimeShift.trimSignatures =
+  [("trimMerge1", ["npts", "trim", "np.max of (truncZ (s2s_travel_time / dt)) - (truncZ (surf2depth_travel_times_i / dt))", "np.min of 2 * (truncZ (surf2depth_travel_times_i / dt))"]),
+   ("trimMerge2", ["npts", "start", "trimMerge1"]),
+   ("trimMerge3", ["surf2depth_travel_times_i", "dt", "start", "s2s_travel_time"]),
+   ("trimS2dShift", ["surf2depth_travel_times_i", "dt"]),
+   ("trimMaxArg", ["surf2depth_travel_times_i", "dt", "s2s_travel_time"]),
+   ("trimMinArg", ["surf2depth_travel_times_i", "dt"]),
+   ("trimReturnsInput", ["trim", "start"]),
+   ("trimWidth", ["trimMerge2"]),
+   ("trimRowCond", ["trimMerge3"]),
+   ("trimNegSrcLo", ["trimMerge3"]),
+   ("trimNegSrcHi", ["trimMerge2", "trimMerge3"]),
+   ("trimPosDstLo", ["trimMerge3"]),
+   ("trimPosSrcHi", ["trimMerge2", "trimMerge3"])] := rfl
+
+example : Gen.TimeShift.surfSignatures =
+  [("surfAccEntryRows", ["nodal", "up_red_i", "down_red_i", "entry of np.pad of values_k", "entry of np.interp at ((k : Int) : Rat) - ((2 * travel_times_i) / dt)"]),
+   ("surfAccEntryScalar", ["nodal", "up_red", "down_red", "entry of np.pad of values_k", "entry of np.interp at ((k : Int) : Rat) - ((2 * travel_times_i) / dt)"]),
+   ("surfShift", ["dt", "travel_times_i"]),
+   ("surfPadBefore", []),
+   ("surfPadAfter", ["np.max of (2 * travel_times_i) / dt"]),
+   ("surfPadValue", []),
+   ("surfWidth", ["values", "np.max of (2 * travel_times_i) / dt"]),
+   ("surfDelayArg", ["dt", "travel_times_i", "k"]),
+   ("surfDown", ["values", "x"]),
+   ("surfVelocityRow", ["dt", "row"]),
+   ("surfEnergyEntry", ["v_ik"]),
+   ("surfSqueezeCond", ["travel_times"]),
+   ("surfSqueezeRow", [])] := rfl
+
+example : Gen.TimeShift.motionsSignatures =
+  [("motionsAccEntryRows", ["nodal", "up_red_i", "down_red_i", "entry of np.pad of values_k", "entry of np.interp at ((k : Int) : Rat) - ((2 * travel_times_i) / dt)"]),
+   ("motionsAccEntryScalar", ["nodal", "up_red", "down_red", "entry of np.pad of values_k", "entry of np.interp at ((k : Int) : Rat) - ((2 * travel_times_i) / dt)"]),
+   ("motionsShift", ["dt", "travel_times_i"]),
+   ("motionsPadBefore", []),
+   ("motionsPadAfter", ["np.max of (2 * travel_times_i) / dt"]),
+   ("motionsPadValue", []),
+   ("motionsWidth", ["values", "np.max of (2 * travel_times_i) / dt"]),
+   ("motionsDelayArg", ["dt", "travel_times_i", "k"]),
+   ("motionsDown", ["values", "x"]),
+   ("motionsSqueezeCond", ["travel_times"]),
+   ("motionsSqueezeRow", [])] := rfl
+
+example : Gen.TimeShift.cumAbsSignatures =
+  [("cumAbsRow", ["row"])] := rfl
+
 end EqsigVerif.Props.C19
